@@ -65,6 +65,10 @@ pub fn c05_sharp() -> Vec<Arc<Prog>> {
         // synchronous and plain writers queued behind one leader: the synchronous one is left out
         // of a plain leader's group and has to be woken as the next leader
         prog("put||put-sync||put", vec![], vec![vec![Put(0, 1, 8)], vec![Put(1, 2, SYNC_SIZE)], vec![Put(0, 3, 8)]]),
+        // four writers: while the first one writes the log with the mutex released, a plain, a
+        // synchronous and another plain writer queue up behind it; the plain one becomes the next
+        // leader with the synchronous writer in the middle of its queue
+        prog_big("put||put||put-sync||put", vec![], vec![vec![Put(0, 1, 8)], vec![Put(1, 2, 8)], vec![Put(0, 3, SYNC_SIZE)], vec![Put(1, 4, 8)]]),
         prog("put-sync||put||put-sync+get", vec![Put(0, 1, 8)], vec![vec![Put(0, 2, SYNC_SIZE)], vec![Put(1, 3, 8)], vec![Put(1, 4, SYNC_SIZE), Get(0)]]),
         // a follower whose batch is too large to join the group of the small write in front of it
         // (a small leader's group may grow by 128 KiB only): it has to be left for the next round
